@@ -630,7 +630,7 @@ impl CanonicalizeContext {
 			};
 		}
 
-		if ELEMENTS_WITH_FIXED_NUMBER_OF_CHILDREN.contains(element_name) {
+		if ELEMENTS_WITH_FIXED_NUMBER_OF_CHILDREN.contains(element_name) || element_name == "mmultiscripts" {
 			match element_name {
 				"munderover" | "msubsup" => if n_children != 3 {
 					bail!("{} should have 3 children:\n{}", element_name, mml_to_string(&mathml));
@@ -772,7 +772,7 @@ impl CanonicalizeContext {
 			let parent = get_parent(mathml);
 			name(&parent).to_string()
 		};
-		let parent_requires_child = ELEMENTS_WITH_FIXED_NUMBER_OF_CHILDREN.contains(&parent_name);
+		let parent_requires_child = ELEMENTS_WITH_FIXED_NUMBER_OF_CHILDREN.contains(&parent_name) || parent_name == "mmultiscripts";
 
 		// handle empty leaves -- leaving it empty causes problems with the speech rules
 		if is_leaf(mathml) && !EMPTY_ELEMENTS.contains(element_name) && as_text(mathml).is_empty() {
